@@ -460,7 +460,7 @@ def sums_binner_numitems(nbins, adds, index):
     return guarded(run)
 
 
-def inex_tree_subsets(names, values, lo, hi):
+def inex_tree_subsets(names, values, lo, hi, abandon_after=None):
     """InExclusionBinTree(items=names, valueof, upper_bound=hi, lower_bound=lo).generate_tree() -> list of lists of names."""
     from prtpy.inclusion_exclusion_tree import InExclusionBinTree
     table = dict(zip(names, values))
@@ -468,6 +468,13 @@ def inex_tree_subsets(names, values, lo, hi):
 
     def run():
         t = InExclusionBinTree(items=given, valueof=table.__getitem__, upper_bound=hi, lower_bound=lo)
+        if abandon_after is not None:
+            # an earlier enumeration of the same tree object that is abandoned after a few yields (what a caller does who breaks out
+            # of its loop), then a complete one
+            g = t.generate_tree()
+            for _ in range(abandon_after):
+                if next(g, None) is None:
+                    break
         return [[norm_name(x) for x in subset] for subset in t.generate_tree()]
     out = guarded(run)
     return out, given == list(names)
